@@ -7,6 +7,10 @@
     qnameUsesContext  : Bool   -- overload (XalanNode* context, const XalanQName&, …): first argument is `context`
     stringUsesContext : Bool   -- overload (XalanNode* context, const XalanDOMString& name, …) — taken by FunctionKey when
                                -- the key name contains a colon: first argument is `context`
+    stringNameByValue : Bool   -- that overload resolves the prefixed name into a QName of its own (a local
+                               -- XalanQNameByValue); `false` = into the execution context's shared scratch QName
+                               -- (`getScratchQName()`), handed on by reference, which use/match expressions evaluated
+                               -- while the table is built can overwrite
   (`false` = it passes `getCurrentNode()`, the XSLT current node, instead.)
 
 Also checks the dispatch in FunctionKey.cpp `getNodeSet` that the model transcribes: a name with a colon goes to the
@@ -61,6 +65,15 @@ def main():
         calls = re.findall(r"m_stylesheetRoot->getNodeSetByKey\( ?([^,]+?) ?,", body)
         if len(calls) != 1:
             print("%s overload: expected exactly one m_stylesheetRoot->getNodeSetByKey call, found %d" % (kind, len(calls))); return 1
+        if kind == "string":
+            qarg = re.findall(r"m_stylesheetRoot->getNodeSetByKey\( ?[^,]+?, ?([^,]+?) ?,", body)[0].strip()
+            if re.search(r"XalanQNameByValue& %s = m_xpathExecutionContextDefault\.getScratchQName\(\);" % re.escape(qarg), body):
+                found["byvalue"] = False
+            elif re.search(r"(const )?XalanQNameByValue %s\( ?name, getMemoryManager\(\), resolver, locator ?\);" % re.escape(qarg), body) \
+                    and "getScratchQName" not in body:
+                found["byvalue"] = True
+            else:
+                print("string overload: cannot classify how the QName %r handed to StylesheetRoot is obtained" % qarg); return 1
         arg = calls[0].strip()
         if arg == "context":
             found[kind] = True
@@ -68,7 +81,7 @@ def main():
             found[kind] = False
         else:
             print("%s overload: cannot classify the key node argument %r" % (kind, arg)); return 1
-    if set(found) != {"qname", "string"}:
+    if set(found) != {"qname", "string", "byvalue"}:
         print("expected the two getNodeSetByKey overloads, found: %s" % sorted(found)); return 1
 
     fk = re.sub(r"\s+", " ", strip_comments(open(FK, encoding="utf-8", errors="replace").read()))
@@ -87,14 +100,18 @@ def main():
         "namespace XalanModel.Generated.C15_ExecContext\n\n"
         "def qnameUsesContext : Bool := %s\n\n"
         "def stringUsesContext : Bool := %s\n\n"
-        "end XalanModel.Generated.C15_ExecContext\n") % (b(found["qname"]), b(found["string"]))
+        "/-- the string-name overload resolves the prefixed key name into a QName of its own (`false`: into the shared\n"
+        "scratch QName, kept by reference while the key table is built) -/\n"
+        "def stringNameByValue : Bool := %s\n\n"
+        "end XalanModel.Generated.C15_ExecContext\n") % (b(found["qname"]), b(found["string"]), b(found["byvalue"]))
     old = open(OUT).read() if os.path.exists(OUT) else None
     if old != text:
         with open(OUT, "w") as f:
             f.write(text)
     with open(OUT[:-5] + ".json", "w") as f:
-        json.dump({"source": SRC, "qnameUsesContext": found["qname"], "stringUsesContext": found["string"]}, f)
-    print("c15_execcontext: qnameUsesContext=%s stringUsesContext=%s" % (found["qname"], found["string"]))
+        json.dump({"source": SRC, "qnameUsesContext": found["qname"], "stringUsesContext": found["string"],
+                   "stringNameByValue": found["byvalue"]}, f)
+    print("c15_execcontext: qnameUsesContext=%s stringUsesContext=%s stringNameByValue=%s" % (found["qname"], found["string"], found["byvalue"]))
     return 0
 
 
